@@ -1,3 +1,4 @@
+import LimeModel.Generated
 import LimeModel.Basic
 /-!
 # M5: server start / stop (server.go `ListenAndServe`, `acceptTransports`, `consumeTransports`,
@@ -140,6 +141,8 @@ def pairedRev : List Ev → Bool
 def allFinished (tr : List Ev) : Bool :=
   tr.all fun e => match e with | .est i => tr.contains (.fin i) | _ => true
 
-def repaired : Bool := true
+/-- which variant the code is, read from the source on this run: `ListenAndServe` decides on the
+server's own context whether it was closed (`harness/cmd/facts/structure.go`) -/
+def repaired : Bool := Generated.serveReturnsClosedAfterClose
 
 end LimeModel.ServerLife
